@@ -110,12 +110,22 @@ def ref_meta(rng, box):
     meta = refspec.ref_metafile(name, files, pl, version, single=single, trailing_pad=True,
                                 with_length=rng.random() < 0.5, extra=extra,
                                 info_extra=info_extra)
-    raw = refspec.encode(meta)
+    shuffled = rng.random() < 0.4
+    if shuffled:
+        items = list(meta["info"].items())
+        rng.shuffle(items)
+        meta["info"] = dict(items)
+        top = list(meta.items())
+        rng.shuffle(top)
+        raw = refspec.encode_ordered(dict(top))
+    else:
+        raw = refspec.encode(meta)
     path = os.path.join(box, "r.torrent")
     with open(path, "wb") as fd:
         fd.write(raw)
     return raw, path, {"source": "ref", "version": version, "shape": shape, "ws": ws,
-                       "name": name, "keys": sorted(extra) + sorted(info_extra)}
+                       "name": name, "keys": sorted(extra) + sorted(info_extra),
+                       "unsorted": shuffled}
 
 
 def run_case(run, drv, case_seed):
